@@ -225,7 +225,7 @@ func specReadyBucket(store *HStore, bucketID int) *Bucket {
 //@   assumed file I/O (os.Stat, OpenFile, Seek, Create): any writer or any error
 //@   modifies ghostFail()
 //@   ensures result1 != nil ==> result0 == nil && ioFailed()
-//@   ensures result1 == nil ==> result0 != nil && fresh(result0)
+//@   ensures result1 == nil ==> result0 != nil && fresh(result0) && result0.wbuf != nil
 
 //@ func (dc *dataChunk) beginGCWriting
 //@   props C17
@@ -236,4 +236,4 @@ func specReadyBucket(store *HStore, bucketID int) *Bucket {
 //@   ensures err != nil ==> dc.gcWriter == nil && ioFailed()      // only opening the writer can fail
 //@   ensures [assumed] dc.chunkid == srcChunk ==> !ghostScanEnd[dc]      // ghost protocol state of the GC pass: a file that starts being rewritten in place has not been scanned yet
 //@   ensures [assumed] dc.chunkid != srcChunk ==> ghostScanEnd[dc] == old(ghostScanEnd[dc])
-//@   ensures err == nil ==> dc.gcWriter != nil
+//@   ensures err == nil ==> dc.gcWriter != nil && dc.gcWriter.wbuf != nil
